@@ -63,9 +63,26 @@ Definition cache_agrees (t : list (hpos * bt bytes bytes)) (probes : table_obs) 
 
 Inductive hbstep :=
 | HAdd (kvs : list (bytes * N)) (root : bytes) (cache tiles store : table_obs)   (* digests with their versions *)
-| HReopen (cache tiles store : table_obs).
+| HReopen (cache tiles store : table_obs)
+| HFind (k : bytes) (value : bytes) (path : list (bytes * bytes)).   (* QueryMembership: value ([] = none), audit path sorted by position *)
 
-(* mismatch codes per step: 1 root, 2 cache, 3 tiles (HyperCacheTable), 4 store (HyperTable), 9 the model fails *)
+Definition hb_fnd := hb_find bytes bytes bytes Hsha 232 256 ds256.
+Fixpoint pins (kv : bytes * bytes) (l : list (bytes * bytes)) : list (bytes * bytes) :=
+  match l with
+  | [] => [kv]
+  | x :: r => if bytes_ltb (fst kv) (fst x) then kv :: l else if bytes_eqb (fst kv) (fst x) then kv :: r else x :: pins kv r
+  end.
+Definition path_view (p : list (hpos * bytes)) : list (bytes * bytes) :=
+  fold_left (fun acc e => pins (hpos_bytes (fst e), snd e) acc) p [].
+Fixpoint lbb_eqb (a b : list (bytes * bytes)) : bool :=
+  match a, b with
+  | [], [] => true
+  | (p, d) :: a', (q, e) :: b' => bytes_eqb p q && bytes_eqb d e && lbb_eqb a' b'
+  | _, _ => false
+  end.
+
+(* mismatch codes per step: 1 root, 2 cache, 3 tiles (HyperCacheTable), 4 store (HyperTable), 5 found value, 6 audit path,
+   9 the model fails *)
 Fixpoint run_hb (s : hbst) (steps : list hbstep) (k : N) : list (N * N) :=
   match steps with
   | [] => []
@@ -88,6 +105,11 @@ Fixpoint run_hb (s : hbst) (steps : list hbstep) (k : N) : list (N * N) :=
           (if table_eqb (table_view (hs_store _ _ s')) st then [] else [(k, 4)]) ++
           run_hb s' r (k + 1)
       end
+  | HFind key value path :: r =>
+      let '(v, p) := hb_fnd s (bits_of_bytes key) in
+      (if bytes_eqb (match v with Some x => x | None => [] end) value then [] else [(k, 5)]) ++
+      (if lbb_eqb (path_view p) path then [] else [(k, 6)]) ++
+      run_hb s r (k + 1)
   end.
 
 Definition run_hb_cases (cs : list (list hbstep)) : list (N * list (N * N)) :=
